@@ -197,6 +197,9 @@ func (x *Exec) mapKeySort(mt *types.Map) Sort {
 	if _, ok := mt.Key().Underlying().(*types.Interface); ok {
 		return SInt
 	}
+	if _, ok := mt.Key().Underlying().(*types.Struct); ok {
+		return SInt // a struct key is the image of its leaves under an injective function (see keyTerm)
+	}
 	panic(engineErr("map key type %s unsupported", mt.Key()))
 }
 
@@ -212,6 +215,26 @@ func (x *Exec) keyTerm(st *State, v Value) Term {
 		x.sym.declareFun("ifk_val", []Sort{SInt}, SInt)
 		k := mk(SInt, "ifacekey", v.Tag, v.Val)
 		st.assume(and(eq(mk(SInt, "ifk_tag", k), v.Tag), eq(mk(SInt, "ifk_val", k), v.Val)))
+		return k
+	case StructV:
+		// a struct used as a map key: one injective uninterpreted function per struct type over the flattened
+		// leaves (two keys are equal iff all leaves are), the inverses making it injective for the solver
+		ts := x.flatten(v)
+		if len(ts) == 1 {
+			return ts[0]
+		}
+		name := "skey_" + sanitize(types.TypeString(v.Typ, nil))
+		sorts := make([]Sort, len(ts))
+		for i, t := range ts {
+			sorts[i] = t.Sort
+		}
+		x.sym.declareFun(name, sorts, SInt)
+		k := mk(SInt, name, ts...)
+		for i, t := range ts {
+			inv := fmt.Sprintf("%s_%d", name, i)
+			x.sym.declareFun(inv, []Sort{SInt}, t.Sort)
+			st.assume(eq(mk(t.Sort, inv, k), t))
+		}
 		return k
 	}
 	panic(engineErr("map key %T unsupported", v))
